@@ -26,6 +26,8 @@ structure LView where
   notify : List Bool
   pending : List (Nat × AEReq)             -- requests of the replication routines now in the network
   hbPending : List Nat                     -- followers with a heartbeat now in the network
+  lc : List Nat := []                      -- with a slow NotifyCh reader: what LeaderCh held (0 / 1, 2 = nothing)
+                                           -- at the moment each notification of `notify` was taken
 
 /-- one step of an observed leader run -/
 structure LStep where
@@ -221,6 +223,14 @@ def notifyFaithful (steps : List LStep) : Option String :=
       if last.post.view.dead then none
       else if (vals.getLast?.getD false) ≠ isLeading last.post then some "last-notification-does-not-match-the-role"
       else none
+
+/-- LeaderCh is never behind NotifyCh: when a notification is waiting to be taken from NotifyCh
+    (however slow its reader), LeaderCh already holds that same transition -/
+def leaderChFirst (steps : List LStep) : Option String :=
+  let bad := steps.any (fun s =>
+    s.post.lc.length == s.post.notify.length &&
+    (s.post.notify.zip s.post.lc).any (fun p => (if p.1 then 1 else 0) != p.2))
+  if bad then some "leaderch-behind-notifych" else none
 
 /-! ## C04 (the requests a leader builds) -/
 
